@@ -64,6 +64,10 @@ Phys(s) == IF s.or = "landscape" THEN <<s.h, s.w>> ELSE <<s.w, s.h>>
 Swap(p) == <<p[2], p[1]>>
 
 OutOfRange(w, h) == w < MinDim \/ w > MaxDim \/ h < MinDim \/ h > MaxDim
+\* outside the documented range by more than the unit rounding (a dimension less than a twip outside the range
+\* is stored as the bound itself: whether such a request is "invalid" is left open)
+TooSmall(x) == x < MinDim - GetTol
+TooLarge(x) == x > MaxDim + GetTol
 
 \* ---- operations ---------------------------------------------------------
 Setters == {"SetPageSettings", "SetPageSize", "SetCustomPageSize", "SetPageOrientation", "SetPageMargins",
@@ -82,8 +86,9 @@ ArgClass(o) ==
          IF o.isnil THEN "nil"
          ELSE IF o.or \notin Orients THEN "bad-orient"
          ELSE IF o.n = "Custom" /\ (o.w <= 0 \/ o.h <= 0) THEN "nonpositive"
-         ELSE IF o.n = "Custom" /\ (o.w < MinDim \/ o.h < MinDim) THEN "below-min"
-         ELSE IF o.n = "Custom" /\ (o.w > MaxDim \/ o.h > MaxDim) THEN "above-max"
+         ELSE IF o.n = "Custom" /\ (TooSmall(o.w) \/ TooSmall(o.h)) THEN "below-min"
+         ELSE IF o.n = "Custom" /\ (TooLarge(o.w) \/ TooLarge(o.h)) THEN "above-max"
+         ELSE IF o.n = "Custom" /\ OutOfRange(o.w, o.h) THEN "bound-rounding"
          ELSE IF o.n \notin StdNames \cup {"Custom"} THEN "unknown-size"
          ELSE IF o.mt < 0 \/ o.mr < 0 \/ o.mb < 0 \/ o.ml < 0 THEN "neg-margin"
          ELSE IF o.hd < 0 \/ o.fd < 0 THEN "neg-distance"
@@ -95,8 +100,9 @@ ArgClass(o) ==
          IF o.n \in StdNames THEN "valid" ELSE IF o.n = "Custom" THEN "custom-name" ELSE "unknown-size"
     [] o.op = "SetCustomPageSize" ->
          IF o.w <= 0 \/ o.h <= 0 THEN "nonpositive"
-         ELSE IF o.w < MinDim \/ o.h < MinDim THEN "below-min"
-         ELSE IF o.w > MaxDim \/ o.h > MaxDim THEN "above-max"
+         ELSE IF TooSmall(o.w) \/ TooSmall(o.h) THEN "below-min"
+         ELSE IF TooLarge(o.w) \/ TooLarge(o.h) THEN "above-max"
+         ELSE IF OutOfRange(o.w, o.h) THEN "bound-rounding"
          ELSE "valid"
     [] o.op = "SetPageOrientation" -> IF o.or \in Orients THEN "valid" ELSE "bad-orient"
     [] o.op = "SetPageMargins" -> IF o.mt < 0 \/ o.mr < 0 \/ o.mb < 0 \/ o.ml < 0 THEN "neg-margin" ELSE "valid"
@@ -110,7 +116,7 @@ InvalidClasses == {"nil", "bad-orient", "nonpositive", "below-min", "above-max",
                    "neg-gutter", "empty-grid-type"}
 \* requests whose acceptance the documentation leaves open: EITHER rejected with nothing changed
 \* OR accepted with exactly the effect of Apply (never something in between)
-OpenClasses == {"unknown-size", "custom-name", "neg-charspace"}
+OpenClasses == {"unknown-size", "custom-name", "neg-charspace", "bound-rounding"}
 
 Rejected(s, o) ==
   /\ ArgClass(o) \in InvalidClasses
